@@ -40,6 +40,9 @@ template <class A, class N> void scal(A& a, const N& n) {
   if constexpr (can_muleq<A, N>::value) a *= n;
   if constexpr (can_diveq<A, N>::value) a /= n;
 }
+template <class N, class A> void nmul(const N& n, const A& a) {
+  if constexpr (can_mul<N, A>::value) (void)(n * a);
+}
 template <class D, class S> void conv(D& d, const S& s) {
   if constexpr (std::is_constructible_v<D, const S&>) { D c(s); (void)c; }
   if constexpr (std::is_assignable_v<D&, const S&>) d = s;
@@ -148,5 +151,67 @@ def tensors_tu(types=('double',), other_types=('float',), free_templates=None, c
             for i, c in enumerate(cls):
                 s += '  conv(d%d, s%d);\n' % (i, i)
             s += '}\n'
+    s += '} }\n'
+    return s
+
+
+def quantities_tu(types=('double',), other_types=('float',), classes=None, hash_=True, conv=True):
+    """All headers; every class template<NumericType> explicitly instantiated for each numeric type;
+    comparison operators, number*q, compound scaling, std::hash and (optionally) the converting
+    constructor/assignment instantiated by use."""
+    cls = classes or class_templates()
+    names = [c for c, _ in cls]
+    s = includes([h for h in astload.all_headers() if 'ConstitutiveModel' not in h]) + TRAITS
+    names = [c for c, h in cls if 'ConstitutiveModel' not in h]
+    for t in types:
+        for c in names:
+            if c in ('ConstitutiveModel',):
+                continue
+            s += 'template class PhQ::%s<%s>;\n' % (c, t)
+    s += 'namespace PhQ { namespace phqv_use {\n'
+    n = 0
+    for t in types:
+        for c in names:
+            if c in ('ConstitutiveModel',):
+                continue
+            s += 'void use_%d(%s<%s>& a, %s<%s>& b, %s n) { cmps(a, b); scal(a, n); nmul(n, a); }\n' % (
+                n, c, t, c, t, t)
+            n += 1
+            if conv:
+                for o in other_types:
+                    if o != t:
+                        s += 'void use_%d(%s<%s>& d, const %s<%s>& s) { conv(d, s); }\n' % (n, c, t, c, o)
+                        n += 1
+    s += '} }\n'
+    return s
+
+
+def unit_types():
+    """Unit enumeration types, from the header names under include/PhQ/Unit (each defines Unit::<Name>)."""
+    d = os.path.join(astload.INC, 'PhQ', 'Unit')
+    return sorted(f[:-4] for f in os.listdir(d) if f.endswith('.hpp'))
+
+
+def units_tu(types=('double',), shapes=True):
+    """Unit headers; dispatch tables and every conversion entry point instantiated for each unit type."""
+    uts = unit_types()
+    hs = ['PhQ/Base.hpp', 'PhQ/Unit.hpp', 'PhQ/UnitSystem.hpp'] + ['PhQ/Unit/%s.hpp' % u for u in uts] + \
+        ['PhQ/PlanarVector.hpp', 'PhQ/Vector.hpp', 'PhQ/SymmetricDyad.hpp', 'PhQ/Dyad.hpp']
+    s = includes(hs) + '#include <vector>\nnamespace PhQ { namespace phqv_use {\n'
+    n = 0
+    for t in types:
+        for u in uts:
+            U = 'Unit::' + u
+            s += 'void use_%d(%s& x, std::array<%s, 3>& a3, std::vector<%s>& vv, PlanarVector<%s>& pv, Vector<%s>& v, SymmetricDyad<%s>& sd, Dyad<%s>& d, %s a, %s b) {\n' % (
+                n, t, t, t, t, t, t, t, U, U)
+            n += 1
+            s += '  (void)&Internal::MapOfConversionsToStandard<%s, %s>; (void)&Internal::MapOfConversionsFromStandard<%s, %s>;\n' % (U, t, U, t)
+            s += '  ConvertInPlace(x, a, b); (void)Convert(x, a, b);\n'
+            if shapes:
+                s += '  ConvertInPlace(a3, a, b); ConvertInPlace(vv, a, b); ConvertInPlace(pv, a, b); ConvertInPlace(v, a, b); ConvertInPlace(sd, a, b); ConvertInPlace(d, a, b);\n'
+                s += '  (void)Convert(a3, a, b); (void)Convert(vv, a, b); (void)Convert(pv, a, b); (void)Convert(v, a, b); (void)Convert(sd, a, b); (void)Convert(d, a, b);\n'
+            s += '  (void)Abbreviation(a); (void)ParseEnumeration<%s>("x"); (void)ConsistentUnit<%s>(UnitSystem::MetreKilogramSecondKelvin); (void)RelatedUnitSystem(a);\n' % (U, U)
+            s += '}\n'
+    s += 'void use_us(UnitSystem s) { (void)Abbreviation(s); (void)ParseEnumeration<UnitSystem>("x"); }\n'
     s += '} }\n'
     return s
